@@ -1071,6 +1071,21 @@ def handlerDisc (fn : String) : Option Handler :=
         | some (he, br, n) => if n < 1 then "skip subdivision-count-outside-the-domain" else
           withOut o (do let k ← pnat; let pts ← pmany pq2 k; pend; pure pts) fun pts =>
             polylineJudge (surfCuboid2 he br) (muSteps [4 * (n : Rat)]) pts }
+  | "rpolygon2_scaled_polyline" => some {
+      model := fun _ => some "-"
+      oracle := fun a o => match run (do let k ← pnat; let inp ← pmany pq2 k; let br ← pq; let s ← pq2; let n ← pnat; pure (inp, br, s, n)) a with
+        | none => "skip bad-args"
+        | some (inp, br, s, n) => if n < 1 || s.x = 0 || s.y = 0 then "skip outside-the-domain" else
+          match o with
+          | ["none"] => "fail none-for-a-non-degenerate-scale"
+          | _ =>
+          withOut o (do let k ← pnat; let pts ← pmany pq2 k; let kh ← pnat; let hull ← pmany pq2 kh; pend; pure (pts, hull)) fun (pts, hull) =>
+            let sinp := inp.map (·.cmul s)
+            if !(hull.all fun p => sinp.any (near2 p)) || !(sinp.all fun p => hull.any (near2 p)) then "fail inner-polygon-is-not-the-scaled-polygon" else
+            -- the boundary of the round shape the code returned: the scaled polygon (counter-clockwise) offset by the kept border radius
+            let area2 := (cyc hull).foldl (fun acc (a, b) => acc + cross2 a b) (0 : Rat)
+            let ccw := if area2 < 0 then hull.reverse else hull
+            polylineJudge (surfPolygon2 ccw br) (muSteps [2 * (n : Rat)]) (if area2 < 0 then pts.reverse else pts) }
   | "rpolygon2_polyline" => some {
       model := fun _ => some "-"
       oracle := fun a o => match run (do let k ← pnat; let inp ← pmany pq2 k; let br ← pq; let n ← pnat; pure (inp, br, n)) a with
